@@ -529,7 +529,7 @@ fn gen_tree(rng: &mut Rng, depth: usize, max_doc: u32, pool: &mut Vec<Vec<u32>>)
             T::BUnion { sum: rng.chance(2, 3), cs: (0..n).map(|_| gen_tree(rng, depth - 1, max_doc, pool)).collect(), num_docs }
         }
         4..=6 => {
-            let n = *rng.pick(&[2usize, 2, 3, 4]);
+            let n = *rng.pick(&[2usize, 2, 3, 4, 5, 6]);
             // `count_including_deleted` picks its branch from `left.size_hint()` at call time, which
             // for union children depends on how many of their children are left; size hints are not
             // modelled, so the branch is made independent of the state: segment_num_docs = 0 always
@@ -1805,6 +1805,11 @@ fn corpus(ctx: &mut Ctx) {
     // score slots of skipped buckets / of earlier windows must not leak (seeded C13-A, C12-A shapes)
     let t10 = T::BUnion { sum: true, cs: vec![leaf(vec![0, 100, 5000], 2), leaf(vec![100, 5100], 5)], num_docs: 6000 };
     check_direct(ctx, &t10, &[Call::Score, Call::Seek(4000), Call::Score, Call::Adv, Call::Score], "corpus-union-skipped-buckets-scores");
+    // 5 clauses; in cost order the 4th and 5th (the 2nd and 3rd of `others`) are the ones that filter
+    let t12 = T::Inter { cs: vec![leaf((0..40).collect(), 1), leaf((0..60).collect(), 1), leaf((0..80).collect(), 1),
+        leaf((0..200).filter(|d| *d >= 40 || d % 2 == 1).collect(), 1), leaf((0..220).filter(|d| *d >= 40 || d % 3 != 0).collect(), 1)], num_docs: 0 };
+    check_direct(ctx, &t12, &[Call::Count, Call::Doc, Call::Adv, Call::Doc], "corpus-inter-dense-count-5-clauses");
+    check_direct(ctx, &t12, &[Call::Seek(7), Call::Count, Call::Doc, Call::Adv, Call::Doc], "corpus-inter-dense-count-5-clauses-after-seek");
     let t11 = T::DisMax { tie4: 2, cs: vec![leaf(vec![0, 5000, 5001], 4), leaf(vec![0, 5000, 9000], 2)], num_docs: 10_000 };
     check_direct(ctx, &t11, &[Call::Score, Call::Adv, Call::Score, Call::Adv, Call::Score, Call::Seek(9000), Call::Score], "corpus-dismax-reused-slots");
 }
@@ -1862,7 +1867,7 @@ pub fn run(ctx: &mut Ctx) {
         eprintln!("c13: corpus done {:?}", t_start.elapsed());
     }
     // (a) direct combinators
-    let n_direct = ctx.budget(3000, 150_000);
+    let n_direct = ctx.budget(3000, 90_000);
     for i in 0..n_direct {
         let mut rng = ctx.rng.fork();
         let max_doc = *rng.pick(&[300u32, 5000, 9000, 13_000, 20_000]);
@@ -1891,7 +1896,7 @@ pub fn run(ctx: &mut Ctx) {
     // (a') scoring unions (SumCombiner / DisjunctionMaxCombiner with tie breaker) whose children span
     // several windows: bucket-skipping in-horizon seeks, far seeks, advances across window ends, with
     // score() at every position compared with the brute-force combination of the children's scores
-    let n_union = ctx.budget(250, 20_000);
+    let n_union = ctx.budget(250, 8_000);
     for _ in 0..n_union {
         let mut rng = ctx.rng.fork();
         let max_doc = *rng.pick(&[9500u32, 13_000, 20_000]);
@@ -1937,9 +1942,69 @@ pub fn run(ctx: &mut Ctx) {
     if std::env::var("C13_TRACE").is_ok() {
         eprintln!("c13: union stream done {:?}", t_start.elapsed());
     }
+    // (a'') intersections of 4-6 dense clauses (every clause filters), also nested, on the dense
+    // count path (segment_num_docs = 0) and the sparse one: count_including_deleted at the start, after
+    // advances and after a seek must equal the number of remaining common documents
+    let n_inter = ctx.budget(300, 8_000);
+    for _ in 0..n_inter {
+        let mut rng = ctx.rng.fork();
+        let max_doc = *rng.pick(&[200u32, 1500, 3000, 6000]);
+        let n = 4 + rng.usize_below(3);
+        let dense_leaf = |rng: &mut Rng| -> T {
+            let keep = *rng.pick(&[2u64, 3, 4, 6]);
+            let lo = rng.below(40) as u32;
+            let docs: Vec<u32> = (lo..max_doc).filter(|_| rng.below(keep + 1) < keep).collect();
+            T::Leaf { docs, score: 1 + rng.below(5) as u32, kind: *rng.pick(&[0u8, 0, 1, 2]) }
+        };
+        let mut cs: Vec<T> = (0..n).map(|_| dense_leaf(&mut rng)).collect();
+        if rng.chance(1, 3) {
+            // one clause is itself an intersection / a union of dense clauses
+            let inner = if rng.chance(1, 2) {
+                T::Inter { cs: vec![dense_leaf(&mut rng), dense_leaf(&mut rng), dense_leaf(&mut rng)], num_docs: if rng.chance(1, 2) { 0 } else { u32::MAX } }
+            } else {
+                T::BUnion { sum: true, cs: vec![dense_leaf(&mut rng), dense_leaf(&mut rng)], num_docs: max_doc + 1 }
+            };
+            let i = rng.usize_below(cs.len());
+            cs[i] = inner;
+        }
+        let dense = rng.chance(3, 4);
+        let t = T::Inter { cs, num_docs: if dense { 0 } else { u32::MAX } };
+        let all = t.docs();
+        let mut prog = vec![];
+        let mut cur = Cursor { all: &all, pos: 0, danger: None, counted: false };
+        match rng.below(4) {
+            0 => {}
+            1 => {
+                for _ in 0..rng.below(6) {
+                    let c = Call::Adv;
+                    cur.step(&c);
+                    prog.push(c);
+                }
+            }
+            2 => {
+                let c = Call::Seek(gen_target(&mut rng, &cur, cur.doc()));
+                cur.step(&c);
+                prog.push(c);
+            }
+            _ => {
+                let c = Call::Seek(gen_target(&mut rng, &cur, cur.doc()));
+                cur.step(&c);
+                prog.push(c);
+                let c = Call::Adv;
+                cur.step(&c);
+                prog.push(c);
+                if cur.doc() != TERMINATED {
+                    prog.push(Call::Score);
+                }
+            }
+        }
+        prog.extend([Call::Count, Call::Doc, Call::Adv, Call::Doc]);
+        ctx.report.count(if dense { "stream:inter-dense-count" } else { "stream:inter-sparse-count" });
+        check_direct(ctx, &t, &prog, "inter-count");
+    }
     // (b) real queries
     let n_index = ctx.budget(3, 12);
-    let per_index = ctx.budget(250, 4000);
+    let per_index = ctx.budget(250, 2500);
     for k in 0..n_index {
         let mut rng = ctx.rng.fork();
         let n = [9000u32, 300, 13_000, 4200, 1, 130][k as usize % 6];
